@@ -384,3 +384,20 @@ pub fn a_sizes() -> Vec<Op> {
     v.push(Op::Reopen);
     v
 }
+
+/// Alphabet for the sliding-window seeds: appends just below / at / above one block (32 KiB in the
+/// real geometry) and well above, a batch of two such records, small appends, head truncations.
+pub fn a_window() -> Vec<Op> {
+    let mut v = Vec::new();
+    for n in [BLOCK - 1, BLOCK, BLOCK + BLOCK / 3] {
+        v.push(Op::app(QA, Pos::Auto, Sz::N(n as u32)));
+    }
+    v.push(Op::app(QA, Pos::Auto, Sz::L));
+    v.push(Op::app(QA, Pos::Auto, Sz::S3));
+    v.push(Op::Append { q: QA, pos: Pos::Auto, sizes: vec![Sz::N(BLOCK as u32 + 5), Sz::S1, Sz::N(BLOCK as u32)] });
+    v.push(Op::app(QB, Pos::Auto, Sz::N(BLOCK as u32 + 9)));
+    v.push(Op::Trunc { q: QA, at: Tr::First });
+    v.push(Op::Trunc { q: QA, at: Tr::Mid });
+    v.push(Op::Trunc { q: QB, at: Tr::First });
+    v
+}
